@@ -5,7 +5,7 @@ from .. import core
 ID = "C03"
 THEOREMS = ["C03_iterator_total_and_shaped", "C03_commands_form_prefix", "C03_at_most_one_error_last", "C03_terminates",
             "C03_fused", "C03_parse_one_bounds", "C03_accessor_reads_in_bounds", "C03_unique_cids",
-            "C03_frame_layout_in_bounds", "C03_join_lengths"]
+            "C03_frame_layout_in_bounds", "C03_join_lengths", "C03_command_lengths_match_lorawan"]
 SETS = ["dl_mac", "ul_mac", "dl_dut", "ul_dut", "dl_mc", "ul_mc"]
 
 
